@@ -150,3 +150,22 @@ class SplitMix64:
 
     def chance(self, num, den):
         return self.below(den) < num
+
+
+def char_laws():
+    """Evaluate the char-class laws assumed by the text-level theorems on the table dumped from Rust std (request
+    `laws` of the model driver; the checkers are proved sound in lean/T2N/Lemmas/CharLaws.lean). Cached per table
+    content. Returns dict law -> bool."""
+    import hashlib
+    table = ensure_cc_table()
+    h = hashlib.sha256(open(table, "rb").read() + open(DRIVER_BIN, "rb").read()).hexdigest()[:16]
+    cache = os.path.join(BUILD, "laws_%s.txt" % h)
+    if not os.path.exists(cache):
+        r = subprocess.run([DRIVER_BIN, "--cc", table], input=b"laws\n", capture_output=True, timeout=600)
+        out = r.stdout.decode("utf-8", "replace").strip()
+        if r.returncode != 0 or "=" not in out:
+            return {"<driver>": False}
+        with open(cache, "w") as f:
+            f.write(out)
+    out = open(cache).read().strip()
+    return {kv.split("=")[0]: kv.split("=")[1] == "1" for kv in out.split(" ") if "=" in kv}
